@@ -19,12 +19,15 @@ def build_driver(build, bufsz, variant="san"):
     return build.harness(variant, "rt_driver%s" % (bufsz or "real"), ["rt_driver.c"], extra=extra)
 
 
-def run_case(exe, casedir, ops, short="-", keep=False, tmpdir=False, fresh=True, rel=False):
+def run_case(exe, casedir, ops, short="-", keep=False, tmpdir=False, fresh=True, rel=False, close0=False):
     if fresh and os.path.exists(casedir):
         shutil.rmtree(casedir)
     env = dict(os.environ)
     env.pop("VERIF_TMPDIR", None)
     env.pop("VERIF_RELTRACE", None)
+    env.pop("VERIF_CLOSE0", None)
+    if close0:
+        env["VERIF_CLOSE0"] = "1"
     if rel:
         env["VERIF_RELTRACE"] = "1"
     if tmpdir:
@@ -177,7 +180,9 @@ def fill_graph(ctx, exe, scratch, B, ops_fn, tag, prop, oracle, emu=None, max_st
                 ctx.cov["runs_with_automatic_flush"] = ctx.cov.get("runs_with_automatic_flush", 0) + 1
             if msg == "ABORTED":
                 outcomes.add(("abort", op[0]))
-                continue
+                if not must_accept(op, B):
+                    continue
+                msg = "the library aborted on a call the API accepts"
             if msg is not None or emu_msg is not None:
                 ctx.violation("%s B=%d fill=%d op=%s: %s" % (tag, B, v, op, msg or emu_msg),
                               {"engine": "E1 rt_driver", "bufsz": B, "program": seen[v] + [op], "short": "-",
@@ -198,8 +203,24 @@ def fill_graph(ctx, exe, scratch, B, ops_fn, tag, prop, oracle, emu=None, max_st
     return seen
 
 
+def must_accept(op, B):
+    """Calls the documented API accepts whatever the fill level: the library may not abort on them."""
+    if op == "f":
+        return True
+    if op[0] in "eq":
+        k = int(op[1:].split(":")[0].rstrip("r"))
+        return k == 0 or 2 <= k <= 16
+    if op[0] == "m" and op[1] in "pos":
+        return int(op[2:]) != 0
+    if op[0] == "j":
+        return 16 + int(op[1:]) < B
+    return False
+
+
 def small_ops(v, B):
     ops = ["e0"] + ["e%d" % k for k in range(2, 17)] + ["f", "mp5"]
+    # mark values are any 64-bit integer except 0
+    ops += ["ms-1", "mp-3", "ms9223372036854775807"]
     # the event built in another order of the setters (payload in two parts first, then MCV, then clock)
     ops += ["e3r", "e16:8+8r"]
     # payloads one and two bytes beyond what an event holds, in one piece and in pieces: the library refuses them (an accepted one
@@ -415,6 +436,23 @@ def run_c01(prop, tier):
                 ctx.violation("program %s%s: %s" % (prog, " (OVNI_TMPDIR)" if t else "", msg),
                               {"engine": "E1 rt_driver", "bufsz": 97, "program": prog, "short": "-", "oracle": "C01", "tmpdir": t}, {"kind": "second-init"})
         ctx.part("second-init-of-a-freed-thread", runs=len(zjobs))
+        # a program without standard input (a daemon, a batch launcher): the stream is opened on descriptor 0
+        c0jobs = [(p, t) for p in (["e0"], ["e16", "f", "e3"], ["j80", "e16", "e16", "e16", "e2"], ["mp5", "ms-1", "j40", "f", "f"], ["e16"] * 9)
+                  for t in (False, True)]
+
+        def one_c0(j):
+            prog, t = j
+            cd = os.path.join(base, "o%d" % os.getpid())
+            rc, err, log = run_case(exe97, cd, prog, tmpdir=t, close0=True)
+            msg = oracle(cd, log, rc, err)
+            return "the library aborted: %s" % err.strip().split("\n")[-1][:200] if msg == "ABORTED" else msg
+        for (prog, t), msg in zip(c0jobs, pmap(one_c0, c0jobs)):
+            ctx.add(evaluations=1, transitions=len(prog), traces_validated_against_impl=1)
+            if msg:
+                ctx.violation("program %s%s without standard input (stream on descriptor 0): %s" % (prog, " (OVNI_TMPDIR)" if t else "", msg),
+                              {"engine": "E1 rt_driver", "bufsz": 97, "program": prog, "short": "-", "oracle": "C01", "tmpdir": t, "close0": True},
+                              {"kind": "no-stdin"})
+        ctx.part("no-standard-input", runs=len(c0jobs))
         # the same pid/tid (a restarted job in a PID namespace); the second run's stream must hold the second run's events only
         first = [list(p) for p in itertools.product(alpha, repeat=2)] + [[a] for a in alpha] + [["j80", "j80", "j80", "e16:8+8"]]
         second = [[a] for a in alpha] + ([] if tier == "quick" else [list(p) for p in itertools.product(alpha[:6], repeat=2)])
